@@ -90,7 +90,7 @@ func SRPVerifierOf(s *srp.SRP, x []byte) []byte {
 }
 
 func SRPComputeVerifier(s *srp.SRP, password []byte) ([]byte, []byte, error) {
-	salt := verif.Fresh("srp-salt", s.SaltLength)
+	salt := FreshDistinct("srp-salt", s.SaltLength)
 	x := s.KeyDerivationFunc(salt, password)
 	return salt, SRPVerifierOf(s, x), nil
 }
@@ -100,7 +100,7 @@ func SRPNewServerSession(s *srp.SRP, username, salt, verifier []byte) *srp.Serve
 	ss.SRP = s
 	g := srpInfos[s].group
 	st := &srpSess{s: s, username: append([]byte{}, username...), salt: append([]byte{}, salt...), verifier: append([]byte{}, verifier...)}
-	st.b = verif.Fresh("srp-b", 32)
+	st.b = FreshDistinct("srp-b", 32)
 	st.B = verif.UF("SRP-B:"+g, srpGroupBytes(g), st.verifier, st.b)
 	srpSessions[ss] = st
 	srpSessionList = append(srpSessionList, st)
@@ -136,18 +136,27 @@ func srpM1(st *srpSess) []byte {
 	return verif.UF("SRP-M1:"+srpInfos[st.s].group+":"+hashID(st.s.HashFunc), 64, st.username, st.salt, st.A, st.B, st.key)
 }
 
+// The client proof is unforgeable: the server accepts cauth iff it is a proof an honest
+// client computed (SRPClientM1, logged) and it equals the proof for the server's own
+// (I, salt, A, B, K).
 func SRPVerifyClientAuthenticator(ss *srp.ServerSession, cauth []byte) bool {
 	st := srpSessions[ss]
 	if st.A == nil {
 		panic("runtime error: invalid memory address or nil pointer dereference (SRP: A not set)")
 	}
-	ok := verif.Eq(srpM1(st), cauth)
-	if ok {
-		st.ProofVerified = true
-		return true
+	if len(cauth) != 64 {
+		return false
+	}
+	for _, r := range m1Log {
+		if verif.And(verif.Eq(r, cauth), verif.Eq(srpM1(st), cauth)) {
+			st.ProofVerified = true
+			return true
+		}
 	}
 	return false
 }
+
+var m1Log [][]byte
 
 func SRPComputeAuthenticator(ss *srp.ServerSession, cauth []byte) []byte {
 	st := srpSessions[ss]
@@ -169,7 +178,9 @@ func SRPClientPremaster(B, A, x []byte) []byte {
 }
 
 func SRPClientM1(username, salt, A, B, key []byte) []byte {
-	return verif.UF("SRP-M1:rfc5054.3072:sha512", 64, username, salt, A, B, key)
+	v := verif.UF("SRP-M1:rfc5054.3072:sha512", 64, username, salt, A, B, key)
+	m1Log = append(m1Log, v)
+	return v
 }
 
 func SRPServerM2(A, m1, key []byte) []byte {
